@@ -28,6 +28,7 @@ ENVS = {"absent": "ABSENT", "empty": {}, "values": {"VERIF_FOO": "bar baz", "VER
 TIMEOUTS = {"absent": "ABSENT", "int": 7, "float": 2.5, "stringNumber": "12.5"}
 INHERITED = ["HOME", "LOGNAME", "PATH", "SHELL", "TERM", "USER"]
 BARE = "verif-mcp-server"
+NAMES = ["Srv1", "srv1", "SRV1", "srv-4 \u00e9"]       # server names are exact keys: case and all
 _primed = [False]
 
 
@@ -98,7 +99,7 @@ def build_case(work, n, case):
         if sc.get("extra"):
             entry["description"] = "extra key"
             entry["disabled"] = False
-        servers["srv%d" % i] = entry
+        servers[NAMES[i - 1]] = entry
         meta.append({"dir": sd, "args": ARGS[sc["args"]], "env": envv, "timeout": TIMEOUTS[sc["timeout"]], "entry": entry, "which": which})
     path = os.path.join(d, "config.json")
     mal = case["malformed"]
@@ -108,9 +109,10 @@ def build_case(work, n, case):
     elif mal != "missingFile":
         with open(path, "w") as f:
             json.dump({"mcpServers": servers, "other": 1}, f, ensure_ascii=False)
-    names = ["srv%d" % i for i in range(1, len(meta) + 1)]
+    names = NAMES[:len(meta)]
     if mal == "unknownServer":
-        names = ["no-such-server"] + names[1:]
+        # not configured - not even when it differs from a configured name only in case
+        names = [["no-such-server", "sRV1", "srv1 ", "Srv"][case.get("variant", n) % 4]] + names[1:]
     return path, names, meta
 
 
@@ -122,7 +124,10 @@ def observe(meta, host_env):
             w = json.load(open(wf))
             pid = wf.rsplit(".", 2)[1]
             if isinstance(m["env"], dict) and m["env"]:
-                env_ok = all(w["env"].get(k) == v for k, v in m["env"].items())
+                # the configured environment and nothing of the host's (what the interpreter and the
+                # shell wrapper add for themselves aside)
+                extra = set(w["env"]) - set(m["env"]) - {"LC_CTYPE", "PWD", "SHLVL", "_", "OLDPWD", "VERIF_WHICH"}
+                env_ok = all(w["env"].get(k) == v for k, v in m["env"].items()) and not extra
             else:
                 # nothing configured: the host's inheritable variables as they were at launch
                 env_ok = all(w["env"].get(k) == v for k, v in host_env.items())
